@@ -199,9 +199,24 @@ CLAIMS = [
                 'bounds-with-monotonicity step. Bounded shapes.',
         'design_ref': 'DESIGN.md section 4 C08',
     },
+    {
+        'property_id': 'C10',
+        'level': 'other',
+        'technique': 'contract-based deductive verification of the real initializers executed through the real layer builds: '
+                     'random sources as contracts (uniform = fresh symbols in range, sort = abstract ordered contract, numpy '
+                     'shuffle = enumerated oracle); concrete initializers evaluated exactly up to rounding; z3/cvc5',
+        'text': 'Lattice linear / random-monotonic initial kernels, PWLCalibration equal-heights / equal-slopes kernels (library '
+                'function with symbolic bounds and keypoints) and KroneckerFactoredLattice initial kernel/scale/bias satisfy the '
+                'shape statements of the property and the feasibility hypotheses of C01/C04/C07/C12, for all random draws; '
+                'where the initial kernel is concrete the real weight constraint is run on it and returns it unchanged.',
+        'note': 'Trusted: operator contracts incl. random.uniform and the abstract sort contract, Keras stub, z3/cvc5. Concrete '
+                'clauses are exact evaluations per enumerated configuration with a 1e-7 rounding tolerance. CategoricalCalibration '
+                'initial kernels are not covered. Bounded shapes.',
+        'design_ref': 'DESIGN.md section 4 C10',
+    },
 ]
 
 _PENDING = 'check not built yet in this session (planned, see DESIGN.md section 4); not claimed until its check exists'
 NOT_APPLICABLE = [
-    {'property_id': 'C%02d' % i, 'reason': _PENDING} for i in range(2, 21) if i not in (2, 4, 5, 6, 7, 8, 9, 12, 13, 14, 15, 19, 20)
+    {'property_id': 'C%02d' % i, 'reason': _PENDING} for i in range(2, 21) if i not in (2, 4, 5, 6, 7, 8, 9, 10, 12, 13, 14, 15, 19, 20)
 ]
